@@ -208,8 +208,12 @@ def step (d : Option Doc) : Event → Option Doc
       else if doc.text = disk then some doc
       else some { text := disk, version := 0, isOpen := false, analysed := disk }
     | none => some { text := disk, version := 0, isOpen := false, analysed := disk }
-  -- `remove_document`: no `is_open` guard (known finding C14-deleted-event-drops-open-document)
-  | .watchedDeleted => none
+  -- `did_change_watched_files`, DELETED: an open document is owned by the editor and is kept
+  -- (the `is_open` guard in front of `remove_document`); a closed one is removed
+  | .watchedDeleted =>
+    match d with
+    | some doc => if doc.isOpen then some doc else none
+    | none => none
 
 def run (d : Option Doc) : List Event → Option Doc
   | [] => d
@@ -363,15 +367,13 @@ def run (d : Option Doc) : List Event → Option (Option Doc)
     | some d' => run d' es
     | none => none
 
-/-- The two guards of `c14_history`, per event: `lfChanges` for a change notification (known
-finding C14-lone-cr), and no DELETED file event while the editor has the document open (known
-finding C14-deleted-event-drops-open-document).  Other events need no guard. -/
+/-- The guard of `c14_history`, per event: `lfChanges` for a change notification (known finding
+C14-lone-cr).  Other events — the file events included — need no guard. -/
 def lfEvent (d : Option Doc) : Event → Bool
   | .didChange _ cs =>
     match d with
     | some doc => lfChanges doc.units cs
     | none => true
-  | .watchedDeleted => d.isNone
   | _ => true
 
 /-- Guard of `c14_history`: `lfEvent` for every event of the history. -/
